@@ -191,6 +191,11 @@ def rule_chunking(ctx, fx, config):
     partial = [b for b, t in f.calls() if fx.callee_decl(t).endswith("io::Read::read")]
     exact = [b for b, t in f.calls() if fx.callee_decl(t).endswith("io::Read::read_exact")]
     ctx.floor("CHUNK.reads", len(partial) + len(exact), 2, config)
+    # a read into a one-byte buffer cannot be partial (it returns 0 or 1): the first byte of a character
+    def one_byte(b):
+        with f.deep():
+            return bool(re.search(r"RangeTo\{1\}\)$", render(f.sym_operand(f.blocks[b]["term"]["args"][1]))))
+    partial = [b for b in partial if not one_byte(b)]
     for k, b in enumerate(partial, 1):
         inloop = [c for c in loops if b in c]
         okc = False
